@@ -211,8 +211,17 @@ class CaseRunner:
             vm = al.varmap()
             self.varmaps[r.idx] = vm
             # the scope kept for the axiom must tell the same story as the pattern
-            scope = sem._cached_axiom_scopes.get(r.ordinal)
-            if scope is None:
+            cache_ = getattr(sem, '_cached_axiom_scopes', None)
+            if not isinstance(cache_, dict):
+                # not the layout this probe knows (the attribute is private): skip the probe, the behavioural comparisons decide
+                ctx.count('scope_probe_skipped')
+                continue_probe = False
+            else:
+                continue_probe = True
+            scope = cache_.get(r.ordinal) if continue_probe else None
+            if not continue_probe:
+                pass
+            elif scope is None:
                 self.violation('scope_missing_for_rule', f'no cached conversion scope for rule ordinal {r.ordinal}', rule=r.axiom.text)
             else:
                 for v in r.variables:
